@@ -79,11 +79,11 @@ func (propC06) Run(ctx *Ctx, index int) {
 			p.Topology = c06Chains[k-3]
 		}
 		p.FanOut = t.Range(2, 8)
-		p.Capacity = t.Range(1, 4)
+		p.Capacity = t.Range(1, 6)
 		if ctx.Tier == "thorough" {
-			p.Length = t.Range(0, 64)
+			p.Length = t.Range(0, 96)
 		} else {
-			p.Length = t.Range(0, 24)
+			p.Length = t.Range(0, 48)
 		}
 		p.ExtraReads = 1 + t.Choose(2)
 		p.Burst = t.Choose(4)
